@@ -1,7 +1,7 @@
 (* C09 — Soft routing computes the documented leaf mixture.
    Models: XV.Model.Soft (cache builder, rational truncation), XV.Real.SoftReal (weights over the reals). *)
 From Coq Require Import Reals QArith List Bool Arith Lra.
-Require Import XV.Model.Tree XV.Model.Soft XV.Proofs.SoftProofs XV.Real.SoftReal.
+Require Import XV.Model.Tree XV.Model.Soft XV.Proofs.SoftProofs XV.Proofs.TruncProofs XV.Real.SoftReal.
 Import ListNotations.
 
 (* (1) the explicit-stack cache builder yields, for EVERY tree, the structural table: preorder node ids,
@@ -77,6 +77,14 @@ Proof. exact mixture_close_to_dominant. Qed.
 Print Assumptions C09_mixture_close_to_dominant_leaf.
 
 (* non-vacuity *)
+(* the relational checker evaluated on the implementation's truncated weights accepts the reference truncation
+   (sort, smallest prefix reaching keep, cap, renormalise) for every positive weight vector, keep, cap and slack *)
+Theorem C09_reference_truncation_is_accepted : forall (e keep : Q) (cap : nat) (w : list Q),
+  (0 <= e)%Q -> (1 <= cap)%nat -> w <> [] -> List.Forall (fun x => (0 < x)%Q) w ->
+  trunc_okb e keep cap w (truncate keep cap w) = true.
+Proof. exact truncate_accepted. Qed.
+Print Assumptions C09_reference_truncation_is_accepted.
+
 Example C09_example_cache :
   let T : tree nat := Node [1] 0 (Node [1] (-1) (Leaf 10%nat) (Leaf 11%nat)) (Node [1] 1 (Leaf 12%nat) (Node [1] 2 (Leaf 13%nat) (Leaf 14%nat))) in
   map snd (paths T) = [[(0, true); (1, true)]; [(0, true); (1, false)]; [(0, false); (2, true)];
